@@ -86,6 +86,18 @@ func (g *Gen) GovStory(id string, blocks int) *Scenario {
 				}
 			}
 		}
+		if g.R.Intn(3) == 0 {
+			// a negative contribution or withdrawal (one adversarial request per block is kept by the class)
+			h := c + g.R.Intn(fundDL-c+3)
+			kind := []string{"PROP_FUND", "PROP_WITHDRAW"}[g.R.Intn(2)]
+			a := A{"id": pid, "by": g.pick(funders), "amt": -g.rng(1, 900)}
+			if kind == "PROP_WITHDRAW" {
+				a["to"] = a["by"]
+			}
+			if h >= 1 && h <= blocks {
+				evs = append(evs, ev{h, STx{Req: TxReq{Kind: kind, A: a, Class: "amt:neg"}, Path: []string{"honest", "direct"}[g.R.Intn(2)]}})
+			}
+		}
 		if cancel {
 			by := proposer
 			if g.R.Intn(4) == 0 {
